@@ -24,6 +24,13 @@ CHECKS = {
              note="Trusted: Lean kernel (propext, Quot.sound), generated Days table, Python's len(set(x)) modelled as 'no duplicates'.",
              tech="Lean 4 induction + `decide +kernel` over the finite mask domain + exhaustive correspondence",
              ref="§7 C12"),
+ "C14": dict(text="Lean theorem duration_mod_24h for ALL 1440 x 1440 pairs at once (omega + kernel-evaluated text lemmas over the 1440 "
+                  "minute values), plus equal/earlier-end corollaries and rejection of malformed text; the model of calc_duration "
+                  "(strptime language, str(timedelta)) is tied to the code by correspondence: boundary grid + random pairs (quick), "
+                  "every pair (thorough).",
+             note="Trusted: Lean kernel (propext, Quot.sound), datetime.strptime('%H:%M') and str(timedelta) as modelled for ASCII text.",
+             tech="Lean 4 proof (omega + `decide +kernel` text lemmas) + differential correspondence, exhaustive in thorough tier",
+             ref="§7 C14"),
 }
 NOT_YET = "check not built yet in this revision (work in progress; see DESIGN.md Appendix B)"
 m = {
